@@ -131,11 +131,8 @@ class World:
 
     # ---- value identity ----------------------------------------------------------------------
     def _id(self, kind, blob):
-        key = (kind, hashlib.sha1(blob).hexdigest())
-        tab = self.ids.setdefault(kind, {})
-        if key not in tab:
-            tab[key] = len(tab) + 1
-        return tab[key]
+        """Content identity as a string; the parent process turns the strings of ALL behaviours into small integers."""
+        return "%s#%s" % (kind, hashlib.sha1(blob).hexdigest()[:16])
 
     def value(self, name):
         o = self.obj[name]
@@ -144,7 +141,7 @@ class World:
                            o.coord_type.encode(), repr(o.icenter).encode()])
             return [self._id("par:" + name, p), self._id("norm:" + name, o.norm_cont.tobytes() + repr(o.norm_cont.shape).encode())]
         if name in LISTS:
-            return 0 if len(o) == 0 else self._id("list:" + name, repr(o).encode())
+            return "EMPTY" if len(o) == 0 else self._id("list:" + name, repr(o).encode())
         return self._id("arr:" + name, o.tobytes() + repr((o.shape, o.dtype.str)).encode())
 
     def snapshot(self):
@@ -152,7 +149,19 @@ class World:
 
     def err_id(self):
         e = tuple(sorted(np.geterr().items()))
-        return 1 + self._id("err", repr(e).encode()) if e != self.err0 else 1
+        return self._id("err", repr(e).encode()) if e != self.err0 else "ERR0"
+
+    def fingerprint(self, out):
+        """A result as something the parent can compare to 1e-12 across processes: exception class, or shape + projections
+        of the array on fixed pseudo-random directions."""
+        if isinstance(out, str):
+            return out
+        a = np.asarray(out)
+        flat = np.concatenate([a.real.ravel(), a.imag.ravel()]) if np.iscomplexobj(a) else a.astype(float).ravel()
+        n = flat.size
+        k = np.arange(1, n + 1, dtype=float)
+        proj = [float(np.nansum(flat * np.cos(0.37 * j * k + j))) for j in range(1, 7)] + [float(np.nansum(np.abs(flat))), float(np.isnan(flat).sum())]
+        return [list(a.shape)] + proj
 
     def result_id(self, f, key, out):
         """Results of equal requests are compared to 1e-12 relative (not bitwise)."""
@@ -227,8 +236,9 @@ def shells_repr(basis):
 def execute(arg):
     """Worker: run one behaviour on fresh real objects and record the trace."""
     n, steps, seed = arg
-    w = World(seed, n)
+    w = World(seed, 0)          # every behaviour starts from objects with the SAME values (shared value-id registry)
     w.err0 = tuple(sorted(np.geterr().items()))
+    init = w.snapshot()
     trace = []
     notes = []
     for st in steps:
@@ -249,8 +259,7 @@ def execute(arg):
                 import traceback
                 if f not in RAISES:
                     notes.append("%s raised %s: %s" % (f, type(exc).__name__, exc))
-            rid = w.result_id(f, key, out)
-            trace.append({"op": op, "f": f, "res": rid, "pre": pre, "post": w.snapshot(), "errpre": epre, "errpost": w.err_id()})
+            trace.append({"op": op, "f": f, "res": w.fingerprint(out), "pre": pre, "post": w.snapshot(), "errpre": epre, "errpost": w.err_id()})
         elif kind == "mutate":
             s, p2 = st[1], st[2]
             ex, co = w.ptab[s][p2 - 1]
@@ -275,7 +284,7 @@ def execute(arg):
             if post[a] == pre[a]:
                 continue
             trace.append({"op": "overwrite", "obj": a, "v": post[a], "post": post})
-    return {"n": n, "trace": trace, "notes": notes, "steps": steps}
+    return {"n": n, "trace": trace, "notes": notes, "steps": steps, "init": init}
 
 
 def diagnose(ev):
@@ -289,6 +298,9 @@ def diagnose(ev):
             return "the call %s left numpy's floating-point error settings changed" % ev["f"]
         if (ev["op"] == "raise") != (ev["f"] in RAISES):
             return ("the valid call %s raised" if ev["op"] == "raise" else "the invalid call %s was not rejected") % ev["f"]
+        if ev.get("_cross"):
+            return ("the call %s answered differently than the same request (same function, bitwise equal argument values) did in %s: "
+                    "the result depends on the history of earlier calls" % (ev["f"], ev["_cross"]))
         return "the call %s answered differently (result id %d) than an earlier call with the same argument values" % (ev["f"], ev["res"])
     if ev["op"] == "assign_norm":
         if not ev["unit"]:
@@ -297,9 +309,26 @@ def diagnose(ev):
     return "driver step %s not accepted" % ev["op"]
 
 
+def cross_history(traces):
+    """Python image of Trace_Session!CrossHistory, used to NAME the offending pair (TLC decides whether there is one)."""
+    seen = {}
+    bad = []
+    for ti, tr in enumerate(traces):
+        for li, ev in enumerate(tr):
+            if ev["op"] in ("call", "raise"):
+                key = (ev["f"], repr([ev["pre"][a] for a in FUNCS[ev["f"]]]))
+                if key in seen and seen[key][2] != (ev["res"], ev["op"]):
+                    bad.append((seen[key][0], seen[key][1], ti, li))
+                seen.setdefault(key, (ti, li, (ev["res"], ev["op"])))
+    return bad
+
+
 def validate(ctx, traces):
     """Trace_Session over all recorded traces.  Returns list of (trace index, event index) rejected."""
-    rejected = []
+    cross_bad = cross_history(traces)
+    rejected = [(b[2], b[3]) for b in cross_bad[:5]]
+    for b in cross_bad[:5]:
+        traces[b[2]][b[3]]["_cross"] = "behaviour %d event %d" % (b[0], b[1] + 1)
     pending = list(range(len(traces)))
     rounds = 0
     while pending and rounds < 50:
@@ -309,9 +338,10 @@ def validate(ctx, traces):
         tlc.write_module(d, "TraceData", "\nRecordedTraces == %s\n" % tlc.tla_value([traces[i] for i in pending]), extends=())
         args = "[" + ", ".join("%s |-> %s" % (f, tlc.tla_value(list(a))) for f, a in FUNCS.items()) + "]"
         body = ("\nVARIABLES val, npErr, memo, last, tid, l\nMCArgs == %s\nINSTANCE Trace_Session WITH Shells <- %s, Arrays <- %s, Lists <- %s,\n"
-                "  Funcs <- %s, ArgsOf <- MCArgs, RaisesF <- %s, MaxVersions <- %d, PopVariant <- FALSE, Traces <- RecordedTraces\n"
+                "  Funcs <- %s, ArgsOf <- MCArgs, RaisesF <- %s, MaxVersions <- %d, PopVariant <- FALSE, Traces <- RecordedTraces\n%s"
                 % (args, tlc.tla_value(set(SHELLS)), tlc.tla_value(set(ARRAYS)), tlc.tla_value(set(LISTS)),
-                   tlc.tla_value(set(FUNCS)), tlc.tla_value(set(RAISES)), MAXV))
+                   tlc.tla_value(set(FUNCS)), tlc.tla_value(set(RAISES)), MAXV,
+                   "ASSUME CrossHistory\n" if rounds == 1 and not cross_bad else ""))
         tlc.write_module(d, "MC_Trace", body, extends=("Integers", "Sequences", "TLC", "TraceData"))
         res = tlc.run(d, "MC_Trace", "SPECIFICATION TraceSpec\nINVARIANT NotStuck\n", workers=4, timeout=1800)
         ctx.add_tlc("Trace_Session: %d recorded traces (%d events) validated against Session.tla" % (
@@ -407,11 +437,57 @@ def run(pid, tier, seed, only_case=None):
     out = common.pmap(execute, [(n, b, seed) for n, b in enumerate(behaviours)])
     traces = []
     nev = 0
+    reg = {}
+    resreg = {}
+
+    def gid(x):
+        if x == "EMPTY":
+            return 0
+        if x == "ERR0":
+            return 1
+        kind = x.split("#")[0]
+        tab = reg.setdefault(kind, {})
+        if x not in tab:
+            tab[x] = len(tab) + (2 if kind == "err" else 1)
+        return tab[x]
+
+    def gval(v):
+        return [gid(v[0]), gid(v[1])] if isinstance(v, list) else gid(v)
+
+    def rid(f, key, fp):
+        lst = resreg.setdefault((f, key), [])
+        for i, ref in lst:
+            if isinstance(ref, str) or isinstance(fp, str):
+                if ref == fp:
+                    return i
+            elif ref[0] == fp[0] and np.allclose(ref[1:], fp[1:], rtol=1e-10, atol=1e-200):
+                return i
+        lst.append((len(lst) + 1, fp))
+        return len(lst)
+
+    for r in out:                       # the initial values get id 1, as in Session!Init
+        if not isinstance(r, common.ImplFailure):
+            for v in r["init"].values():
+                gval(v)
+            break
     for n, r in enumerate(out):
         if isinstance(r, common.ImplFailure):
             raise tlc.MachineryError(r.msg)
-        traces.append(r["trace"])
-        nev += len(r["trace"])
+        tr = []
+        for ev in r["trace"]:
+            e2 = dict(ev)
+            for k in ("pre", "post"):
+                if k in e2:
+                    e2[k] = {o: gval(v) for o, v in e2[k].items()}
+            for k in ("errpre", "errpost", "p", "n", "v"):
+                if k in e2:
+                    e2[k] = gid(e2[k])
+            if "res" in e2:
+                key = repr([e2["pre"][a] for a in FUNCS[e2["f"]]])
+                e2["res"] = rid(e2["f"], key, e2["res"])
+            tr.append(e2)
+        traces.append(tr)
+        nev += len(tr)
     rejected = validate(ctx, traces)
     for (ti, li) in rejected:
         ev = traces[ti][li]
